@@ -56,8 +56,11 @@ OBJECT_CONFIGS = [
     (2, "rewrite", {"rules": "fusion:_rms_normalization", "api": "apply"}),
     (2, "rewrite", {"rules": "fusion:_layer_norm", "api": "apply"}),
     (1, "rewrite", {"rules": "fusion:_rotary_embedding", "api": "apply"}),
-    (2, "convert", {"target": 18, "fallback": False, "api": "pass"}),
-    (2, "convert", {"target": 23, "fallback": False, "api": "pass"}),
+    (3, "rewrite", {"rules": "ort:gelu,erfgelu,bias_gelu", "api": "apply"}),
+    (2, "rewrite", {"rules": "ort:rms_normalization,softmax", "api": "apply"}),
+    (3, "convert", {"target": 18, "fallback": False, "api": "pass"}),
+    (3, "convert", {"target": 20, "fallback": False, "api": "pass"}),
+    (3, "convert", {"target": 23, "fallback": False, "api": "pass"}),
     (1, "convert", {"target": 21, "fallback": True, "api": "pass"}),
     (1, "convert", {"target": 20, "fallback": False, "api": "proto"}),
     (1, "convert", {"target": 25, "fallback": False, "api": "ir"}),
@@ -66,7 +69,7 @@ OBJECT_CONFIGS = [
 
 
 FAMILY_AFFINITY = {
-    "gen:rms_norm": "fusion:_rms_normalization", "gen:layer_norm": "fusion:_layer_norm",
+    "gen:rms_norm": "fusion:_rms_normalization", "gen:layer_norm": "fusion:_layer_norm", "gen:gelu": "ort:gelu,erfgelu,bias_gelu",
     "gen:matmul_add": "group:matmul_add_to_gemm_rule,gemm_to_matmul_add_rule,collapse_slice_rule,cast_constant_of_shape_rule,slice_split_rule",
     "gen:pad_conv": "group:fuse_pad_into_conv_rule,normalize_pad_format_conv_rule,fuse_batchnorm_into_conv_rule,fuse_batchnorm_into_gemm_rule",
     "gen:bn_conv": "group:fuse_pad_into_conv_rule,normalize_pad_format_conv_rule,fuse_batchnorm_into_conv_rule,fuse_batchnorm_into_gemm_rule",
@@ -110,6 +113,16 @@ def gen_targets(seed: int, tier: dict, pools) -> list[dict]:
     per_fam = tier.get("per_family", 3)
     n_gen = len(gen_fams)
     gen_slots = [gen_fams[i // per_fam] for i in range(n_gen * per_fam)]
+    # the version converter's own test models are the ones on which adapters replace nodes
+    vc_texts = [(f, t) for f, t in pools.texts if "version_converter" in f]
+    rng.sub("vcorder").shuffle(vc_texts)
+    for i, (f, t) in enumerate(vc_texts[:tier.get("vc_models", 8)]):
+        r = rng.sub("vc", i)
+        m = {"pool": "text", "text": t}
+        for target in r.sample([20, 21, 23, 25], 2):
+            add(with_id({"kind": "convert", "model": m, "family": f, "target": target if target != 21 else 23, "fallback": False, "api": "pass"}))
+        add(with_id({"kind": "convert", "model": m, "family": f, "target": r.choice([19, 20, 22]), "fallback": r.chance(0.5),
+                     "api": r.choice(["proto", "ir"])}))
     script_slots = [x for x in pools.script_models if "/fusion/" in x[0]]
     rng.sub("scriptorder").shuffle(script_slots)
     script_slots = script_slots[:tier.get("script_models", 8)]
@@ -125,6 +138,9 @@ def gen_targets(seed: int, tier: dict, pools) -> list[dict]:
             m = pools.model_ref(r, family=r.choice(fams) if r.chance(0.6) else None)
         fam = m.pop("family", None) or m.get("path", "")
         k = r.randint(3, 5)
+        if fam.startswith("gen:") and r.chance(0.35):
+            # version conversion through a long-lived pass, to a target that is (or is not) the model's own version
+            add(with_id({"kind": "convert", "model": m, "family": fam, "target": r.choice([18, 20, 23]), "fallback": False, "api": "pass"}))
         for j in range(k):
             _, kind, params = r.weighted([(c, c[0]) for c in OBJECT_CONFIGS])
             if j == 0 and fam.startswith("script:") and "/fusion/" in fam:
@@ -133,7 +149,8 @@ def gen_targets(seed: int, tier: dict, pools) -> list[dict]:
                 kind, params = "rewrite", {"rules": "fusion:" + mod, "api": "apply", "pre_optimize": True}
             elif j == 0 and fam in FAMILY_AFFINITY:
                 # make sure the family meets the rule set that stashes its parameters
-                kind, params = "rewrite", {"rules": FAMILY_AFFINITY[fam], "api": r.choice(["apply", "proto", "ir"])}
+                # through the *long-lived* RewriteRuleSet object (api "apply"), so that the family shares one object
+                kind, params = "rewrite", {"rules": FAMILY_AFFINITY[fam], "api": "apply"}
             if kind == "convert" and m["pool"] == "onnx_backend" and r.chance(0.5):
                 continue
             add(with_id({"kind": kind, "model": m, "family": fam, **copy.deepcopy(params)}))
@@ -149,7 +166,7 @@ def _rule_bearing(op: dict) -> bool:
     return op["kind"] == "optimize" and op.get("api") in ("proto", "ir", "ir_should_fold")
 
 
-def _pair_run(rng: Rng, pool: list[dict], failing: set, length: int) -> list[dict]:
+def _pair_run(rng: Rng, pool: list[dict], failing: set, length: int, changing: set | None = None) -> list[dict]:
     """[A1, B1, A2, B2, ...]: every A fails part-way (it fails by itself, or gets an injected callee exception) and the
     B right after it goes through the same singletons with other parameters and is checked."""
     ops = []
@@ -160,7 +177,10 @@ def _pair_run(rng: Rng, pool: list[dict], failing: set, length: int) -> list[dic
             if rng.chance(0.3):
                 a["fault"] = {"frac": rng.below(10**6) / 10**6}
         else:
-            a = copy.deepcopy(rng.choice(pool))
+            # prefer an A that really changes its model (a rule fires, something folds, an adapter replaces a node):
+            # that is when per-call state on the shared object gets written before the fault lands
+            movers = [t for t in pool if changing and t["id"] in changing]
+            a = copy.deepcopy(rng.choice(movers if movers and rng.chance(0.75) else pool))
             a["fault"] = {"frac": rng.below(10**6) / 10**6}
         others = [t for t in pool if jdump(t.get("model")) != jdump(a.get("model"))] or pool
         b = copy.deepcopy(rng.choice(others))
@@ -168,9 +188,11 @@ def _pair_run(rng: Rng, pool: list[dict], failing: set, length: int) -> list[dic
     return ops
 
 
-def gen_runs(seed: int, tier: dict, targets: list[dict], repo: str, failing: set | None = None) -> list[dict]:
+def gen_runs(seed: int, tier: dict, targets: list[dict], repo: str, failing: set | None = None,
+             changing: set | None = None) -> list[dict]:
     runs = []
     failing = failing or set()
+    changing = changing or set()
     by_family: dict = collections.defaultdict(list)
     by_kind: dict = collections.defaultdict(list)
     by_obj: dict = collections.defaultdict(list)
@@ -213,12 +235,12 @@ def gen_runs(seed: int, tier: dict, targets: list[dict], repo: str, failing: set
             pool = [t for t in by_family[fam] if _rule_bearing(t)]
             if len(pool) >= 2:
                 template, env["template"] = "pairs_family", "pairs_family"
-                ops = _pair_run(rng, pool, failing, length)
-        elif r % 5 == 1 and stateful:
-            ob = stateful[(r // 5) % len(stateful)]
+                ops = _pair_run(rng, pool, failing, length, changing)
+        elif r % 5 in (1, 3) and stateful:
+            ob = stateful[(2 * (r // 5) + (r % 5) // 3) % len(stateful)]
             if len(by_obj[ob]) >= 2:
                 template, env["template"] = "pairs_object", "pairs_object"
-                ops = _pair_run(rng, by_obj[ob], failing, length)
+                ops = _pair_run(rng, by_obj[ob], failing, length, changing)
         elif r % 5 == 2 and len(custom_scripts) >= 2:
             # scripts whose helpers live in the same custom opset domain at different versions (Opset singletons are
             # process-wide), plus revisits of long-lived OnnxFunctions
@@ -693,13 +715,23 @@ def check(tier_name: str, seed: int, max_runs: int | None = None) -> int:
 
         # ---- histories
         failing = {tid for tid, rec in ref[h0].items() if rec.get("status") == "raised"}
-        runs = gen_runs(seed, tier, targets, repo, failing)
+        changing = {tid for tid, rec in ref[h0].items() if rec.get("changed")}
+        runs = gen_runs(seed, tier, targets, repo, failing, changing)
         for run in runs:  # resolve fault positions from the measured call counts
             for op in run["ops"]:
                 f = op.get("fault")
                 if f is not None:
-                    calls = (ref[h0].get(op["id"]) or {}).get("calls") or 0
-                    f["k"] = int(f["frac"] * calls) if calls else 0
+                    rrec = ref[h0].get(op["id"]) or {}
+                    calls = rrec.get("calls") or 0
+                    marks = rrec.get("marks") or []
+                    if marks and f["frac"] < 0.6:
+                        # aim at the window right after the model was changed (state written, clean-up not yet run):
+                        # a mark chosen by frac, then up to 1500 calls later chosen by the finer digits of frac
+                        m = marks[int(f["frac"] / 0.6 * len(marks)) % len(marks)]
+                        off = int((f["frac"] * 7919) % 1 * min(1500, max(1, calls - m)))
+                        f["k"], f["aim"] = min(calls - 1, m + off), "after-change"
+                    else:
+                        f["k"], f["aim"] = (int(f["frac"] * calls) if calls else 0), "uniform"
         outs = _par(runs, pyc, workers, 600, None)
         agg = collections.Counter()
         fault_sites: set = set()
